@@ -127,7 +127,8 @@ func main() {
 
 	st := ctx.NewStream("eval", "Gojq.Spec.eval (Model/Spec.lean) with natives of Model/Native.lean and the generated builtin.jq AST",
 		"(program, input) pairs: cli/test.yaml queries on their inputs, hand-picked probes of the property's nestings, all programs `atom op atom` over a 10-atom alphabet (exhaustive), wrapped triples, random programs × universe/random inputs: 70% type-directed against the input's inferred type (≈1% end in a type error), 20% type-blind (≈80% end in an error), 10% mixed; programs that fail to parse/compile or exceed the step budget are not compared; distinct = distinct implementation answers")
-	var lines, impl, labels []string
+	var lines, impl, labels, srcs []string
+	var inputs []any
 	codeCache := map[string]*gojq.Code{}
 	astCache := map[string]string{}
 	for _, c := range cases {
@@ -181,24 +182,17 @@ func main() {
 		lines = append(lines, astCache[c.src]+" ||| "+common.Canon(c.input))
 		impl = append(impl, common.CanonOutcome(o))
 		labels = append(labels, c.src+"  ON  "+common.Canon(c.input))
+		srcs = append(srcs, c.src)
+		inputs = append(inputs, c.input)
 		if len(st.Samples) < 4 && len(lines)%997 == 1 {
 			st.Samples = append(st.Samples, c.src+" on "+common.Canon(c.input)+" => "+common.CanonOutcome(o))
 		}
 	}
 	st.Labels = labels
 	ctx.RunStream(st, lines, impl)
-	// tally why cases were unmodelled (second pass over model answers is inside RunStream; here
-	// we only keep counts). Replace the protocol-line samples by readable ones.
-	if len(st.First) > 0 {
-		// map protocol lines back to source text for readability
-		for i := range st.First {
-			for j, l := range lines {
-				if strings.HasPrefix(l, st.First[i].Line[:min(len(st.First[i].Line), 400)]) {
-					_ = j
-					break
-				}
-			}
-		}
+	// disagreements: ask jq 1.6 which side it agrees with (search for a confirmed failing input)
+	if n := common.RefereeJq(ctx, st, srcs, inputs); n > 0 {
+		ctx.Res.Notes = append(ctx.Res.Notes, fmt.Sprintf("%d disagreement(s) confirmed against jq 1.6", n))
 	}
 	lawsOracle(ctx)
 	ctx.Finish()
